@@ -605,6 +605,9 @@ func genC1BaseKind(t *Tape, allowExc bool, kind int) (sc *C1, ok bool) {
 		sc.Unit = []byte{0, 255, 248, 1}[t.Choose(4)] // 0 and 248-255 are unit ids on the wire like any other (gateways use them); a device that answers is answered for
 	}
 	sc.TID = uint16(1 + t.Choose(65535))
+	if t.Chance(1, 12) {
+		sc.TID = []uint16{0, 65535, 1, 256, 255}[t.Choose(5)] // where a transaction counter starts and wraps
+	}
 	lr, err := BuildLibRequest(sc.Req, sc.Unit, sc.TID, sc.Kind.Framing())
 	if err != nil {
 		return sc, false
@@ -621,6 +624,7 @@ func genC1BaseKind(t *Tape, allowExc bool, kind int) (sc *C1, ok bool) {
 		pdu = []byte{fc | 0x80, sc.ExcCode}
 	} else {
 		dev := NewDevice(uint64(t.Choose(1 << 30)))
+		dev.SpecialEvery = []int{0, 0, 3, 1}[t.Choose(4)] // register values at which representations change or that resemble protocol bytes
 		if fc == 17 {
 			dev.ServerID = t.Bytes(1 + t.Choose(12))
 			if t.Choose(2) == 1 {
